@@ -118,6 +118,16 @@ CHECKS = {
              "annotations of all 13 tasks are scored against a deep copy and against the very same objects through every "
              "evaluate() and metric function (46 function entries); Trace_Rel compares each position with the optimum table.",
         ref="4/C02"),
+    "C01": dict(
+        technique="TLA+ range invariants model-checked on the definitional models; every returned score of the code "
+                  "classified by a TLA+ trace spec (table of score kinds)",
+        text="TLC checks the range invariants of MC_C16 (pairwise, Rand, ARI), MC_C12 (15 chord scores), MC_Key and MC_C05 "
+             "(hits <= min(n,m)) on every enumerated input. On the code, all evaluate() and metric functions of the 13 tasks "
+             "run on seeded valid inputs of every degenerate shape with default and in-range non-default parameters; "
+             "Trace_Range holds the table fn -> kind per result position (prop, bin, chance, err, dev, pscore, aor, fin) and "
+             "rejects any value outside its kind's range or of wrong arity; violations carry an input-class tag so that the "
+             "recorded findings stay specific.",
+        ref="4/C01"),
 }
 
 PENDING = "check not built yet (build in progress; see DESIGN.md section 10)"
